@@ -5,6 +5,7 @@ import (
 	"os"
 	"path/filepath"
 	"regexp"
+	"runtime/debug"
 	"strings"
 	"sync"
 )
@@ -74,6 +75,9 @@ func renameIn(src, file, start, from, to string) (Edit, bool) {
 type Rename struct{ File, Start, From, To string }
 
 var witnesses []Witness
+
+// witnessSem bounds how many mutated copies of the program are loaded at once (each costs 2-3 GB).
+var witnessSem = make(chan struct{}, 4)
 
 func addWitness(w Witness) { witnesses = append(witnesses, w) }
 
@@ -167,6 +171,7 @@ func runWitness(repo string, wit Witness, ff *FindingsFile) WitnessResult {
 		return res
 	}
 	pr := runProp(w, wit.Prop, "quick", ff)
+	w.Release()
 	var hits []string
 	for _, o := range pr.violations {
 		if wit.Kind == "neutral" {
@@ -214,7 +219,7 @@ func runWitnessSet(repo, prop, name string, ff *FindingsFile) []WitnessResult {
 		}
 	}
 	out := make([]WitnessResult, len(sel))
-	sem := make(chan struct{}, 5)
+	sem := witnessSem
 	var wg sync.WaitGroup
 	for i := range sel {
 		wg.Add(1)
@@ -228,6 +233,7 @@ func runWitnessSet(repo, prop, name string, ff *FindingsFile) []WitnessResult {
 				}
 			}()
 			out[i] = runWitness(repo, sel[i], ff)
+			debug.FreeOSMemory()
 		}(i)
 	}
 	wg.Wait()
@@ -244,6 +250,7 @@ func runExtraConfigs(prop, repo string, ff *FindingsFile) []extraResult {
 			continue
 		}
 		pr := runProp(w, prop, "quick", ff)
+		w.Release()
 		out = append(out, extraResult{summary: fmt.Sprintf("config tags=%s: %d obligations, %d violations", cfg.tags, len(pr.obls), len(pr.violations)), violations: pr.violations})
 	}
 	return out
